@@ -1,8 +1,11 @@
 """C11 — Every emitted item survives the analyse/summarise/represent stages (DESIGN.md 5.C11)."""
 import json
 
+import os
+
 from fam import aggregate as A
 from fam import dns
+from fam import stages
 
 
 def dns_share(ctx):
@@ -15,17 +18,26 @@ def run(ctx):
     fam.dnsshare = type("M", (), {"c11": staticmethod(dns_share)})
     import sys
     sys.modules["fam.dnsshare"] = fam.dnsshare
-    A.FAMILIES = ["resp", "amqp", "kafka", "http", "dnsshare"]
+    fam.stagestie = type("M", (), {"c11": staticmethod(stages.c11)})
+    sys.modules["fam.stagestie"] = fam.stagestie
+    # the stage harness dumps the maps Summarize / Represent receive; the static part's tie runs last
+    os.environ["VERIF_STAGE_DUMP"] = "1"
+    ctx.c11_items = []
+    A.FAMILIES = ["resp", "amqp", "kafka", "http", "dnsshare", "stagestie"]
     return A.run_shared(
         ctx, "c11", None,
         rule="every item emitted by the real Dissect of the four stream dissectors for the families' generated conversations "
              "(well-formed with every field type and null/empty/absent variants, other API versions, corrupted streams that still emit) and generated DNS entries "
              "(every record type in every section, pairs of types, absent/null/empty sections), each through json.Marshal -> Unmarshal -> Analyze -> Marshal -> Unmarshal -> Summarize / Represent with recover; "
              "the representation must be a JSON object whose request/response parts are lists of table|body sections with parseable table data; time within a linear budget; "
-             "DNS: model (Shape/Dns.v) vs implementation on well-formed and deviating entries",
+             "DNS: model (Shape/Dns.v) vs implementation on well-formed and deviating entries; "
+             "redis/amqp/kafka static part: Summarize/Represent translated from the source into access programs, request/response shapes derived by reflection from the emitted Go values, "
+             "the checker accepts every program for every alternative (Properties/C11_static.v); tie: every emitted item's stage inputs conform to an alternative and the model gives the observed outcome, "
+             "single-point deviations of emitted items and of shape witnesses give the same outcome and panic site in model and implementation",
         assumptions=["DNS entries have the shape the worker builds: at least one question; every record carries all string fields and a numeric ttl"],
         trusted=["harness/stage and the families' stage modes (recover around every stage, form check of the representation)",
-                 "modelled, not verified: encoding/json (dynamic types after unmarshalling); the later stages of the AMQP, Kafka, HTTP and Redis extensions are explored, not modelled"])
+                 "modelled, not verified: encoding/json (dynamic types after unmarshalling); the later stages of the HTTP extension are explored, not modelled; "
+                 "Analyze of redis/amqp/kafka is not translated (its effect on the maps is observed on probe items when the shapes are derived)"])
 
 
 def replay(ctx, path):
